@@ -269,9 +269,7 @@ def reset_module_state() -> int:
     for e in _BASE or ():
         if e[0] == "cache":
             try:
-                if e[1].cache_info().currsize:
-                    changed += 1
-                e[1].cache_clear()
+                e[1].cache_clear()          # always: not counted as "changed" (a warm functools cache is the normal case)
             except Exception:  # noqa: BLE001
                 pass
         elif e[0] == "cont":
